@@ -108,14 +108,21 @@ func (bf *buffer) ID() int64 {
 
 func (bf *buffer) Close() error {
 	atomic.StoreInt64(&bf.done, 1)
+	vpoint(bf, vpDone)
 
+	vpoint(bf, vpPreLockP)
 	bf.pcond.L.Lock()
+	vpoint(bf, vpLockedP)
 	bf.pcond.Broadcast()
 	bf.pcond.L.Unlock()
+	vpoint(bf, vpUnlockedP)
 
+	vpoint(bf, vpPreLockC)
 	bf.ccond.L.Lock()
+	vpoint(bf, vpLockedC)
 	bf.ccond.Broadcast()
 	bf.ccond.L.Unlock()
+	vpoint(bf, vpUnlockedC)
 
 	return nil
 }
@@ -208,6 +215,7 @@ func (bf *buffer) Read(p []byte) (int, error) {
 	for {
 		cpos := bf.cseq.get()
 		ppos := bf.pseq.get()
+		vpoint(bf, vpLoaded)
 		cindex := cpos & bf.mask
 
 		// If consumer position is at least len(p) less than producer position, that means
@@ -222,10 +230,15 @@ func (bf *buffer) Read(p []byte) (int, error) {
 		if cpos+pl < ppos {
 			n := copy(p, bf.buf[cindex:])
 
+			vpoint(bf, vpCopied)
 			bf.cseq.set(cpos + int64(n))
+			vpoint(bf, vpStoredC)
+			vpoint(bf, vpPreLockP)
 			bf.pcond.L.Lock()
+			vpoint(bf, vpLockedP)
 			bf.pcond.Broadcast()
 			bf.pcond.L.Unlock()
+			vpoint(bf, vpUnlockedP)
 
 			return n, nil
 		}
@@ -251,27 +264,38 @@ func (bf *buffer) Read(p []byte) (int, error) {
 				n = copy(p, bf.buf[cindex:])
 			}
 
+			vpoint(bf, vpCopied)
 			bf.cseq.set(cpos + int64(n))
+			vpoint(bf, vpStoredC)
+			vpoint(bf, vpPreLockP)
 			bf.pcond.L.Lock()
+			vpoint(bf, vpLockedP)
 			bf.pcond.Broadcast()
 			bf.pcond.L.Unlock()
+			vpoint(bf, vpUnlockedP)
 			return n, nil
 		}
 
 		// If we got here, that means cpos >= ppos, which means there's no data available.
 		// If so, let's wait...
 
+		vpoint(bf, vpPreLockC)
 		bf.ccond.L.Lock()
+		vpoint(bf, vpLockedC)
 		for ppos = bf.pseq.get(); cpos >= ppos; ppos = bf.pseq.get() {
 			if bf.isDone() {
 				bf.ccond.L.Unlock()
+				vpoint(bf, vpUnlockedC)
 				return 0, io.EOF
 			}
 
 			bf.cwait++
+			vpoint(bf, vpPreWaitC)
 			bf.ccond.Wait()
+			vpoint(bf, vpWokeC)
 		}
 		bf.ccond.L.Unlock()
+		vpoint(bf, vpUnlockedC)
 	}
 }
 
@@ -289,10 +313,15 @@ func (bf *buffer) Write(p []byte) (int, error) {
 	// Let's copy from p into this.buf, starting at position ppos&this.mask.
 	total := ringCopy(bf.buf, p, int64(start)&bf.mask)
 
+	vpoint(bf, vpCopied)
 	bf.pseq.set(start + int64(len(p)))
+	vpoint(bf, vpStoredP)
+	vpoint(bf, vpPreLockC)
 	bf.ccond.L.Lock()
+	vpoint(bf, vpLockedC)
 	bf.ccond.Broadcast()
 	bf.ccond.L.Unlock()
+	vpoint(bf, vpUnlockedC)
 
 	return total, nil
 }
@@ -316,19 +345,26 @@ func (bf *buffer) ReadPeek(n int) ([]byte, error) {
 
 	cpos := bf.cseq.get()
 	ppos := bf.pseq.get()
+	vpoint(bf, vpLoaded)
 
 	// If there's no data, then let's wait until there is some data
+	vpoint(bf, vpPreLockC)
 	bf.ccond.L.Lock()
+	vpoint(bf, vpLockedC)
 	for ppos = bf.pseq.get(); cpos >= ppos; ppos = bf.pseq.get() {
 		if bf.isDone() {
 			bf.ccond.L.Unlock()
+			vpoint(bf, vpUnlockedC)
 			return nil, io.EOF
 		}
 
 		bf.cwait++
+		vpoint(bf, vpPreWaitC)
 		bf.ccond.Wait()
+		vpoint(bf, vpWokeC)
 	}
 	bf.ccond.L.Unlock()
+	vpoint(bf, vpUnlockedC)
 
 	// m = the number of bytes available. If m is more than what's requested (n),
 	// then we make m = n, basically peek max n bytes
@@ -376,22 +412,29 @@ func (bf *buffer) ReadWait(n int) ([]byte, error) {
 
 	cpos := bf.cseq.get()
 	ppos := bf.pseq.get()
+	vpoint(bf, vpLoaded)
 
 	// This is the magic read-to position. The producer position must be equal or
 	// greater than the next position we read to.
 	next := cpos + int64(n)
 
 	// If there's no data, then let's wait until there is some data
+	vpoint(bf, vpPreLockC)
 	bf.ccond.L.Lock()
+	vpoint(bf, vpLockedC)
 	for ppos = bf.pseq.get(); next > ppos; ppos = bf.pseq.get() {
 		if bf.isDone() {
 			bf.ccond.L.Unlock()
+			vpoint(bf, vpUnlockedC)
 			return nil, io.EOF
 		}
 
+		vpoint(bf, vpPreWaitC)
 		bf.ccond.Wait()
+		vpoint(bf, vpWokeC)
 	}
 	bf.ccond.L.Unlock()
+	vpoint(bf, vpUnlockedC)
 
 	// If we are here that means we have at least n bytes of data available.
 	cindex := cpos & bf.mask
@@ -426,6 +469,7 @@ func (bf *buffer) ReadCommit(n int) (int, error) {
 
 	cpos := bf.cseq.get()
 	ppos := bf.pseq.get()
+	vpoint(bf, vpLoaded)
 
 	// If consumer position is at least n less than producer position, that means
 	// we have enough data to fill p. There are two scenarios that could happen:
@@ -437,10 +481,15 @@ func (bf *buffer) ReadCommit(n int) (int, error) {
 	//    buffer to p, and copy will just copy until the end of the buffer and stop.
 	//    The number of bytes will NOT be len(p) but less than that.
 	if cpos+int64(n) <= ppos {
+		vpoint(bf, vpCopied)
 		bf.cseq.set(cpos + int64(n))
+		vpoint(bf, vpStoredC)
+		vpoint(bf, vpPreLockP)
 		bf.pcond.L.Lock()
+		vpoint(bf, vpLockedP)
 		bf.pcond.Broadcast()
 		bf.pcond.L.Unlock()
+		vpoint(bf, vpUnlockedP)
 		return n, nil
 	}
 
@@ -472,11 +521,16 @@ func (bf *buffer) WriteCommit(n int) (int, error) {
 	}
 
 	// If we are here then there's enough bytes to commit
+	vpoint(bf, vpCopied)
 	bf.pseq.set(start + int64(cnt))
+	vpoint(bf, vpStoredP)
 
+	vpoint(bf, vpPreLockC)
 	bf.ccond.L.Lock()
+	vpoint(bf, vpLockedC)
 	bf.ccond.Broadcast()
 	bf.ccond.L.Unlock()
+	vpoint(bf, vpUnlockedC)
 
 	return cnt, nil
 }
@@ -495,6 +549,7 @@ func (bf *buffer) waitForWriteSpace(n int) (int64, int, error) {
 
 	// For the producer, gate is the previous consumer sequence.
 	gate := bf.pseq.gate
+	vpoint(bf, vpLoaded)
 
 	wrap := next - bf.size
 
@@ -537,19 +592,25 @@ func (bf *buffer) waitForWriteSpace(n int) (int64, int, error) {
 	//
 	if wrap > gate || gate > ppos {
 		var cpos int64
+		vpoint(bf, vpPreLockP)
 		bf.pcond.L.Lock()
+		vpoint(bf, vpLockedP)
 		for cpos = bf.cseq.get(); wrap > cpos; cpos = bf.cseq.get() {
 			if bf.isDone() {
 				bf.pcond.L.Unlock()
+				vpoint(bf, vpUnlockedP)
 				return 0, 0, io.EOF
 			}
 
 			bf.pwait++
+			vpoint(bf, vpPreWaitP)
 			bf.pcond.Wait()
+			vpoint(bf, vpWokeP)
 		}
 
 		bf.pseq.gate = cpos
 		bf.pcond.L.Unlock()
+		vpoint(bf, vpUnlockedP)
 	}
 
 	return ppos, n, nil
